@@ -414,6 +414,9 @@ func (x *Exec) applyContract(fc *FuncContract, key string, sig *types.Signature,
 	if fc.Assume {
 		x.noteTrusted("assumed contract: " + key + trustedNote(fc))
 	}
+	if fc.MayPanic != "" {
+		x.noteTrusted("callee " + key + " may panic (allowed by its contract; what is proved here holds when it returns): " + fc.MayPanic)
+	}
 	if fc.Model != "" && modelByName(fc.Model).Float != x.model.Float && x.usesFloat(sig) {
 		x.unsupported(e, "callee %s is specified in model %s, caller in %s", key, fc.Model, x.model.Name)
 	}
